@@ -129,8 +129,9 @@ def lex_opcode_size(s: "Scanner") -> None:
 
         return lex_operand(s)
     else:
+        size_position = s.get_position()
         s.next()
-        raise ScannerException("Invalid Size Specifier", s.get_position())
+        raise ScannerException("Invalid Size Specifier", size_position)
 
 
 def lex_opcode(s: "Scanner") -> None:
